@@ -82,3 +82,14 @@ Example C02_nonvacuous :
   = [("t", [(9101, 7, "t_v0"); (9101, 7, "t_v0"); (9101, 7, "t_v0")]%Z); ("t", []); ("t", [(9101, 7, "t_v0")]%Z)]
   /\ check_C02 {| c_retries := 3; c_labels := ex_labels; c_out := out s; c_events := events s; c_out_at := []; c_ev_at := [] |} = true.
 Proof. vm_compute. repeat split. Qed.
+
+(* the name of a dropped partition does not stay behind: after the callback of the partition's barrier (every shard has read
+   the drop message, the drop request has been handed over) the map the collection's handlers share has no entry for the
+   name - a partition created again under it is looked up in the downstream anew and gets its create request *)
+Require Verif.Reader.Forget.
+Theorem C02_dropped_partition_name_forgotten : forall s c n h r,
+  find (fun h => match zlookup (h_recs h) c with Some _ => true | None => false end) (handlers s) = Some h ->
+  zlookup (h_recs h) c = Some r ->
+  alookup (heap_get (forget_name s c n) (t_parts r)) n = None.
+Proof. exact Forget.forget_name_forgets. Qed.
+Print Assumptions C02_dropped_partition_name_forgotten.
